@@ -767,7 +767,7 @@ Proof.
     replace (Zlength pre + Zlength r =? dsize d) with true by lia.
     assert (Hall : Zlength (flat d) = Zlength pre + Zlength r) by (fold (dsize d); lia).
     unfold enc_flat. rewrite Hall, <- H. unfold tail64 in *.
-    cbn [encf] in Hcap. rewrite Zlength_nil in Hcap. rewrite Hall in Hcap.
+    rewrite Hall in Hcap.
     pose proof (Zlength_nonneg (encf 0 0 (flat d))) as He0.
     assert (He : Zlength (encf 0 0 pre) + Zlength (encf (last pre 0) (Zlength pre) r) = Zlength (encf 0 0 (flat d))).
     { rewrite H, encf_app, Zlength_app, Z.add_0_l. reflexivity. }
@@ -780,16 +780,190 @@ Proof.
       * rewrite !Zlength_cons, Zlength_nil in Hcap.
         rewrite tput64; [|change 48 with (Z.land 48 63) | lia].
         2: { rewrite Z.land_assoc. apply land63. }
-        cbn [bind]. rewrite wr_pad_ok by lia. cbn [bind repeat app].
-        rewrite Zlength_app, !Zlength_cons, Zlength_nil, rev_app_distr. cbn [rev app Z.of_nat].
-        f_equal. f_equal. lia.
+        cbn [bind]. rewrite wr_pad_ok; [|lia|first [change (Z.of_nat 2) with 2|change (Z.of_nat 1) with 1]; lia]. cbn [bind repeat app].
+        rewrite Zlength_app, !Zlength_cons, Zlength_nil, rev_app_distr. cbn [rev app].
+        f_equal. f_equal. f_equal. lia.
       * rewrite !Zlength_cons, Zlength_nil in Hcap.
         rewrite tput64; [|change 60 with (Z.land 60 63) | lia].
         2: { rewrite Z.land_assoc. apply land63. }
-        cbn [bind]. rewrite wr_pad_ok by lia. cbn [bind repeat app].
-        rewrite Zlength_app, !Zlength_cons, Zlength_nil, rev_app_distr. cbn [rev app Z.of_nat].
-        f_equal. f_equal. lia.
+        cbn [bind]. rewrite wr_pad_ok; [|lia|first [change (Z.of_nat 2) with 2|change (Z.of_nat 1) with 1]; lia]. cbn [bind repeat app].
+        rewrite Zlength_app, !Zlength_cons, Zlength_nil, rev_app_distr. cbn [rev app].
+        f_equal. f_equal. f_equal. lia.
   - replace (Zlength pre + Zlength r =? dsize d) with false by lia. reflexivity.
 Qed.
 
+Lemma b64e_regions_ok : forall d cap rest pre,
+  flat d = pre ++ flat rest -> Forall (fun r => r <> []) rest -> rest <> [] -> dsize d < 2 ^ 62 ->
+  Zlength (enc_flat (flat d)) <= cap ->
+  apply_regions (b64e_region d (dsize d) cap) rest (Zlength pre)
+                (Zlength pre, (Zlength (encf 0 0 pre), rev (encf 0 0 pre))) =
+    Ok (dsize d, (Zlength (enc_flat (flat d)), rev (enc_flat (flat d)))).
+Proof.
+  intros d cap rest. induction rest as [|r rest IH]; intros pre H Hne Hnn Hsz Hcap; [contradiction|].
+  apply Forall_cons_iff in Hne. destruct Hne as [Hr Hrest].
+  cbn [apply_regions]. change (flat (r :: rest)) with (r ++ flat rest) in H.
+  rewrite (b64e_region_ok d cap r pre (flat rest) _ _ H Hr Hsz eq_refl (eq_sym (Zlength_rev _)) Hcap).
+  cbn [bind].
+  destruct rest as [|r2 rest].
+  - cbn [flat concat apply_regions]. change (Zlength [] =? 0) with true. cbv iota.
+    f_equal. f_equal. unfold dsize. rewrite H. cbn [flat concat]. rewrite app_nil_r, Zlength_app. reflexivity.
+  - assert (Hr2 : r2 <> []) by (apply Forall_cons_iff in Hrest; tauto).
+    assert (Hpos : 0 < Zlength (flat (r2 :: rest))).
+    { change (flat (r2 :: rest)) with (r2 ++ flat rest). rewrite Zlength_app.
+      pose proof (Zlength_pos r2 Hr2). pose proof (Zlength_nonneg (flat rest)). lia. }
+    replace (Zlength (flat (r2 :: rest)) =? 0) with false by lia.
+    rewrite <- Zlength_app.
+    apply IH; auto; [rewrite <- app_assoc; exact H|discriminate].
+Qed.
+
+Lemma encf_len : forall l prev count, 0 <= count ->
+  Zlength (encf prev count l) = (count + Zlength l) + (count + Zlength l) / 3 - (count + count / 3).
+Proof.
+  induction l as [|c l IH]; intros prev count Hc; cbn [encf].
+  - rewrite Zlength_nil. lia.
+  - rewrite Zlength_app, Zlength_cons, IH by lia. pose proof (Zlength_nonneg l).
+    unfold chunk64. destruct (Z.eqb_spec (count mod 3) 0); [|destruct (Z.eqb_spec (count mod 3) 1)];
+      rewrite ?Zlength_cons, Zlength_nil; lia.
+Qed.
+
+Lemma enc_flat_len : forall l, Zlength (enc_flat l) = howmany (Zlength l) 3 * 4.
+Proof.
+  intros. unfold enc_flat. rewrite Zlength_app, encf_len by lia. pose proof (Zlength_nonneg l).
+  unfold tail64, howmany. destruct (Z.eqb_spec (Zlength l mod 3) 0); [|destruct (Z.eqb_spec (Zlength l mod 3) 1)];
+    rewrite ?Zlength_cons, Zlength_nil; lia.
+Qed.
+
+(* the byte loop is the group-wise RFC 4648 encoder *)
+Lemma encf_groups : forall n l, (length l <= n)%nat -> forall prev count, count mod 3 = 0 ->
+  encf prev count l ++ tail64 (Zlength l mod 3) (last l prev) = b64_spec l.
+Proof.
+  induction n as [|n IH]; intros l Hn prev count Hc.
+  { destruct l; [reflexivity|cbn in Hn; lia]. }
+  destruct l as [|a [|b [|c r]]].
+  - reflexivity.
+  - cbn [encf b64_spec]. unfold chunk64. rewrite Hc. change (0 =? 0) with true. cbv iota.
+    change (Zlength [a] mod 3) with 1. unfold tail64. change (1 =? 0) with false. change (1 =? 1) with true.
+    reflexivity.
+  - cbn [encf b64_spec]. unfold chunk64. rewrite Hc.
+    replace ((count + 1) mod 3) with 1 by lia. change (0 =? 0) with true. change (1 =? 0) with false.
+    change (1 =? 1) with true. cbv iota.
+    change (Zlength [a; b] mod 3) with 2. unfold tail64. change (2 =? 0) with false. change (2 =? 1) with false.
+    reflexivity.
+  - cbn [encf b64_spec]. unfold chunk64 at 1 2 3. rewrite Hc.
+    replace ((count + 1) mod 3) with 1 by lia. replace ((count + 1 + 1) mod 3) with 2 by lia.
+    change (0 =? 0) with true. change (1 =? 0) with false. change (1 =? 1) with true.
+    change (2 =? 0) with false. change (2 =? 1) with false. cbv iota. cbn [app].
+    do 4 f_equal.
+    rewrite !last_cons_default.
+    replace (Zlength (a :: b :: c :: r) mod 3) with (Zlength r mod 3)
+      by (rewrite !Zlength_cons; pose proof (Zlength_nonneg r); lia).
+    apply IH; [cbn [length] in Hn; lia|lia].
+Qed.
+
+Lemma enc_flat_spec : forall l, enc_flat l = b64_spec l.
+Proof. intros. unfold enc_flat. apply (encf_groups (length l) l (le_n _) 0 0 eq_refl). Qed.
+
+(* the Base64 encoder on ANY split of a byte string into (non-empty) regions: never NULL, never out of bounds,
+   and exactly the RFC 4648 encoding of the concatenation *)
+Theorem to_base64_flat : forall d, Forall (fun r => r <> []) d -> dsize d < 2 ^ 62 ->
+  to_base64 d = Ok (data_create (b64_spec (flat d))).
+Proof.
+  intros d Hne Hsz. unfold to_base64. pose proof (Zlength_nonneg (flat d)) as H0. fold (dsize d) in H0.
+  replace (SIZE_MAX / 4 <? howmany (dsize d) 3) with false by (unfold SIZE_MAX, howmany; lia).
+  destruct d as [|r d].
+  - reflexivity.
+  - assert (Hc : Zlength (enc_flat (flat (r :: d))) <= howmany (dsize (r :: d)) 3 * 4)
+      by (rewrite enc_flat_len; unfold dsize; lia).
+    assert (HR := b64e_regions_ok (r :: d) _ (r :: d) [] eq_refl Hne ltac:(discriminate) Hsz Hc).
+    cbn [encf rev] in HR. change (Zlength (@nil Z)) with 0 in HR.
+    unfold data in *. rewrite HR.
+    cbn [bind]. rewrite enc_flat_len. unfold dsize. rewrite Z.eqb_refl, rev_involutive, enc_flat_spec. reflexivity.
+Qed.
+
 End B64enc.
+
+(* ------------------------------------------------------------------------------------------------ through dispatch_data_create_with_transform *)
+
+Lemma transform_none_b64 : forall d, transform d F_NONE F_BASE64 = if dsize d =? 0 then Ok d else to_base64 d.
+Proof. reflexivity. Qed.
+Lemma transform_b64_none : forall d,
+  transform d F_BASE64 F_NONE = if dsize d =? 0 then Ok d else (do t <- from_base64 d; Ok t).
+Proof. reflexivity. Qed.
+
+Definition wf_data (d : data) : Prop := Forall (fun r => r <> []) d /\ bytes (flat d) /\ dsize d < 2 ^ 60.
+
+Lemma wf_regions_small : forall d, dsize d < 2 ^ 60 -> Forall (fun r => Zlength r < 2 ^ 60) d.
+Proof.
+  induction d as [|r d IH]; intros H; constructor.
+  - unfold dsize in H. cbn [flat concat] in H. rewrite Zlength_app in H. pose proof (Zlength_nonneg (concat d)). lia.
+  - apply IH. unfold dsize in *. cbn [flat concat] in H. rewrite Zlength_app in H. pose proof (Zlength_nonneg r).
+    change (concat d) with (flat d) in H. lia.
+Qed.
+
+Lemma b64_spec_nonempty : forall l, l <> [] -> b64_spec l <> [].
+Proof. intros [|a [|b [|c r]]] H; try contradiction; cbn [b64_spec]; discriminate. Qed.
+
+(* C20, Base64 clause, at full strength: for every byte string and every split of it into regions the encoder
+   succeeds with the RFC 4648 encoding of the concatenation (so the result does not depend on the split), and
+   for every split of THAT string into regions the decoder returns the original bytes *)
+Theorem base64_roundtrip_all_splits : forall d, wf_data d ->
+  exists e, transform d F_NONE F_BASE64 = Ok e /\ flat e = b64_spec (flat d) /\
+    forall d', flat d' = flat e -> dsize d' < 2 ^ 60 ->
+      flat_res (transform d' F_BASE64 F_NONE) = Ok (flat d).
+Proof.
+  intros d (Hne & Hb & Hsz). rewrite transform_none_b64.
+  destruct (Z.eqb_spec (dsize d) 0) as [E|E].
+  - exists d. assert (Hd : flat d = []) by (apply Zlength_nil_inv; exact E).
+    split; [reflexivity|]. split; [rewrite Hd; reflexivity|].
+    intros d' Hd' _. rewrite transform_b64_none.
+    assert (E' : dsize d' = 0) by (unfold dsize; rewrite Hd', Hd; reflexivity).
+    rewrite E'. change (0 =? 0) with true. cbv iota. cbn [flat_res]. rewrite Hd', Hd. reflexivity.
+  - rewrite to_base64_flat by (auto; lia).
+    eexists. split; [reflexivity|]. rewrite flat_create. split; [reflexivity|].
+    intros d' Hd' Hsz'. rewrite transform_b64_none.
+    assert (Hne' : flat d <> []) by (intro Hc; apply E; unfold dsize; rewrite Hc; reflexivity).
+    assert (E' : dsize d' <> 0).
+    { unfold dsize. rewrite Hd'. intro Hc. apply Zlength_nil_inv in Hc. revert Hc. apply b64_spec_nonempty, Hne'. }
+    destruct (Z.eqb_spec (dsize d') 0); [contradiction|].
+    assert (Hb' : bytes (flat d')).
+    { rewrite Hd'. clear - Hb. 
+      assert (He : forall k, byte (e64 k)).
+      { intros k. unfold e64. destruct (Z_lt_le_dec k 0) as [Hk|Hk].
+        - replace (Z.to_nat k) with 0%nat by lia. cbn. unfold byte; lia.
+        - destruct (Z_lt_le_dec k 64) as [Hk2|Hk2].
+          + assert (H : forallb (fun k => (0 <=? e64 k) && (e64 k <? 256)) (zrange 64) = true) by (vm_compute; reflexivity).
+            pose proof (forallb_zrange 64 _ H k ltac:(lia)) as Hq. cbv beta in Hq. unfold e64 in Hq. unfold byte. lia.
+          + rewrite nth_overflow by (change (length base64_encode_table) with 64%nat; lia). unfold byte; lia. }
+      assert (Hp : byte PAD) by (unfold byte, PAD; lia).
+      remember (length (flat d)) as n eqn:Hn. assert (Hl : (length (flat d) <= n)%nat) by lia. clear Hn.
+      revert Hb Hl. generalize (flat d) as l. induction n as [|n IH]; intros l Hb Hl.
+      - destruct l; [constructor|cbn in Hl; lia].
+      - destruct l as [|a [|b [|c r]]]; cbn [b64_spec];
+          repeat (apply Forall_cons; [first [apply He|exact Hp]|]); try (apply Forall_nil).
+        apply IH; [|cbn [length] in Hl; lia].
+        apply Forall_cons_iff in Hb. destruct Hb as [_ Hb]. apply Forall_cons_iff in Hb. destruct Hb as [_ Hb].
+        apply Forall_cons_iff in Hb. tauto. }
+    assert (HF := from_base64_flat d' Hb' (wf_regions_small d' Hsz')).
+    rewrite Hd', roundtrip64_flat in HF by exact Hb.
+    destruct (from_base64 d') as [t| |]; cbn [flat_res bind] in *; try discriminate. exact HF.
+Qed.
+
+(* C20, "NULL or accepted by the inverse" and "no access outside the objects", Base64 decoder, arbitrary input:
+   whatever the bytes and the split, the decoder returns NULL or data, never touches memory outside its buffers,
+   and its answer depends on the concatenation only; whatever it returns, the encoder accepts it *)
+Theorem base64_decode_total : forall d, wf_data d ->
+  flat_res (transform d F_BASE64 F_NONE) = (if dsize d =? 0 then Ok (flat d) else dec64_flat (flat d)) /\
+  (forall site, transform d F_BASE64 F_NONE <> OOB site) /\
+  (forall t, transform d F_BASE64 F_NONE = Ok t -> Forall (fun r => r <> []) t -> dsize t < 2 ^ 60 ->
+             exists e, transform t F_NONE F_BASE64 = Ok e).
+Proof.
+  intros d (Hne & Hb & Hsz). rewrite transform_b64_none.
+  assert (HF := from_base64_flat d Hb (wf_regions_small d Hsz)).
+  assert (HO := fun site => from_base64_no_oob d site Hb (wf_regions_small d Hsz)).
+  split; [|split].
+  - destruct (dsize d =? 0); [reflexivity|]. rewrite <- HF. destruct (from_base64 d); reflexivity.
+  - intros site. destruct (dsize d =? 0); [discriminate|].
+    destruct (from_base64 d) eqn:E; cbn [bind]; try discriminate. intro Hc. inversion Hc; subst. eapply HO; eauto.
+  - intros t _ Ht Hts. rewrite transform_none_b64. destruct (dsize t =? 0); [eauto|].
+    rewrite to_base64_flat by (auto; lia). eauto.
+Qed.
